@@ -113,7 +113,9 @@ let dump st =
          let x = (match v with Plain x | Merged x -> x) in
          Printf.sprintf "%s:%s:%s:%s" (hopt st d (Some v)) (hid st d (parent_node s x))
            (hopt st d (previous_sibling s true x)) (hopt st d (next_sibling s true x))) m in
-       Buffer.add_string b ("/m=" ^ (if items = [] then "-" else String.concat ";" items))
+       Buffer.add_string b ("/m=" ^ (if items = [] then "-" else String.concat ";" items));
+       (* first_child / last_child in the merged-text view *)
+       Buffer.add_string b (Printf.sprintf "/mf=%s:%s" (hopt st d (first_child s true i)) (hopt st d (last_child s true i)))
      | KAt -> Buffer.add_string b (Printf.sprintf "/ow=%s" (hid st d (owner_element s i)))
      | _ -> ())
   done;
